@@ -55,6 +55,26 @@ P = {
    "Every generated scenario rendered d0,d1,d0 per policy must agree across eager/lazy/on-demand and across repetitions; renders that do not reach the broken partial must be unchanged when it is replaced or removed; building the parser must succeed; all API call sequences of length <= k on the three stores must give identical observations.",
    "in-memory sources with truthful name listing; error comparison on the first message line",
    "DESIGN.md §5 C19"),
+ "C02": (True, "enum", "exploration",
+   "complete products: every registered filter (names via reflection) x input x argument vectors of arity 0..3 from the shared value pool; every loop/range/cycle/conditional/include/render/counter construct x pool values in each parameter position; generated programs x type-confused data; oracle = returns Ok/Err, no panic/hang, UTF-8 output",
+   "Every (template, data) pair of the stated products is rendered under a panic guard and watchdog: the call must return Ok or Err (with a message) and the bytes written must be valid UTF-8. Exhaustive over the value pool (21 values quick, 65 thorough) at arity <= 3; the right level for a totality statement whose known defects all have witnesses inside this pool.",
+   "range widths above 10^4 excluded as the statement says; now/today excluded (clock); aborts (OOM/stack overflow) are machinery failures",
+   "DESIGN.md §5 C02"),
+ "C13": (True, "enum", "exploration",
+   "exhaustive small-scope enumeration of all strings up to length 4-5 over a 10-character alphabet (combining mark, emoji, whitespace) x argument strings x integers in [-6,8], against an independent character-based reference and algebraic laws; filter chains against stepwise application",
+   "Every input/argument combination within the bounds is rendered through a structural dump filter and compared with the reference (both readings of 'character', bytes never) and the laws of the statement (split/join identity, strip = lstrip o rstrip, truncate length bound, slice contiguity, size, append/prepend associativity, chain = left-to-right composition).",
+   "capitalize tail, truncatewords on irregular whitespace, slice length <= 0, negative truncate length (unchanged or ellipsis-only), split on empty pattern are tolerated/unspecified",
+   "DESIGN.md §5 C13"),
+ "C14": (True, "enum", "exploration",
+   "exhaustive enumeration of all arrays up to length 5-6 over scalar and object pools, all slice offsets/lengths, and a structured long family (all periodic arrays at lengths 21..64, all rotations of sorted/reversed arrays with duplicates) against reference implementations and laws",
+   "Permutation, order, stability, idempotence of sort; first-of-class uniq (value-model equality); exact compact/concat/map/where/first/last/size/slice/join; beyond the 20-element threshold of the standard sort: exact order where elements are mutually comparable, otherwise no failure + permutation.",
+   "order among mutually incomparable elements unspecified",
+   "DESIGN.md §5 C14"),
+ "C15": (True, "enum", "exploration",
+   "exhaustive pairs over an integer grid incl. i64 bounds in 4x4 operand representations, the k/8 grid, and a 374-value power-of-two neighbourhood grid, for the seven binary math filters; all grid inputs for ceil/floor/round/abs; compared with i128 / IEEE f64 reference arithmetic",
+   "Integer operands: exact result if it fits i64, otherwise Err or the float continuation, never another integer or a crash; divided_by/modulo jointly satisfy n = q*d + r, |r| < |d|, zero divisor is an error; float operands: IEEE result bit-for-bit; numeric strings behave as numbers; ceil/floor/round give the documented neighbour (ties away from zero).",
+   "integer division may truncate or floor; float modulo truncated or floored; float zero divisor may be an error or the IEEE result; overflow continuation = nearest double of the exact result or the IEEE operation on converted operands",
+   "DESIGN.md §5 C15"),
 }
 ORDER = ["C%02d" % i for i in range(1, 21)]
 REASON_WIP = "check not built yet in this round (work in progress; planned per DESIGN.md §5)"
